@@ -191,7 +191,7 @@ func genOp(t *rapid.T) Case {
 // TestSingleFaults: for every generated operation, every single fault point x {error, panic,
 // foreign-type} is enumerated.
 func TestSingleFaults(t *testing.T) {
-	vfrun.Run(t, vfrun.Prop[Case]{Property: "C04", Name: "TestSingleFaults", Gen: genOp, Check: check}, vfrun.N(160, 6000))
+	vfrun.Run(t, vfrun.Prop[Case]{Property: "C04", Name: "TestSingleFaults", Gen: genOp, Check: check}, vfrun.N(500, 8000))
 }
 
 // TestMultiFaults: random fault sets including panics.
@@ -205,5 +205,5 @@ func TestMultiFaults(t *testing.T) {
 			c.Overrides = kit.DrawOverrides(t, kit.Candidates(ref), 4, true)
 			c.Multi = true
 			return c
-		}, Check: check}, vfrun.N(1500, 50000))
+		}, Check: check}, vfrun.N(4000, 80000))
 }
